@@ -96,8 +96,9 @@ Fixpoint accrual_parts (desc : str) (targets : option (list commodity)) (acc : a
    original date.  The pinned transaction.go tests [p.Account.IsAL()], so postings on Equity
    accounts are neither re-booked nor split: they vanish (finding C10-equity-dropped, DESIGN F7).
    The repaired code tests [!p.Account.IsIE()].  Everything below is parameterised by this
-   predicate; the unsuffixed names are the PINNED behaviour (what Cli.v / the C01 driver run),
-   the [_fixed] names are the repaired behaviour that Properties/C10.v is proved about. *)
+   predicate; since the fix landed in /repo (969b5ee) the unsuffixed names (what Cli.v and the
+   drivers run) and the [_fixed] names are the repaired behaviour; [rebook_pinned] is kept so
+   that Properties/C10.v can state what the pinned code did (C10_equity_refuted). *)
 Definition rebook_pinned (a : account) : bool := is_AL a.
 Definition rebook_fixed (a : account) : bool := negb (is_IE a).
 
@@ -142,13 +143,13 @@ Definition txn_create_gen (rebook : account -> bool) (s : stxn) : mresult (list 
   | None => MOk [t]
   end).
 
-(* pinned tree *)
-Definition expand_posting := expand_posting_gen rebook_pinned.
-Definition expand_postings := expand_postings_gen rebook_pinned.
-Definition expand := expand_gen rebook_pinned.
-Definition txn_create := txn_create_gen rebook_pinned.
+(* the code as it is now (repaired) *)
+Definition expand_posting := expand_posting_gen rebook_fixed.
+Definition expand_postings := expand_postings_gen rebook_fixed.
+Definition expand := expand_gen rebook_fixed.
+Definition txn_create := txn_create_gen rebook_fixed.
 
-(* repaired (findings/C10-equity-dropped.patch) *)
+(* same, under the names Properties/C10.v uses *)
 Definition expand_posting_fixed := expand_posting_gen rebook_fixed.
 Definition expand_postings_fixed := expand_postings_gen rebook_fixed.
 Definition expand_fixed := expand_gen rebook_fixed.
